@@ -63,7 +63,7 @@ let () =
     | _ ->
     let wire_spec =
       match kind, ins with
-      | "lines", [_; ls] ->
+      | ("lines" | "asmsrc"), [_; ls] ->
           let ls = if ls = "-" then [] else List.map str_of_field (String.split_on_char ',' ls) in
           Some (wire ls, Some (joined_lf ls))
       | "raw", [_; w] -> Some (str_of_field w, None)
